@@ -206,6 +206,8 @@ def csv_quoting(ctx):
             if d.status != 'returned':
                 fam.obligations += 1; cand(f'path-{d.status}', f'print_string ends as {d.status} {d.notes}', ex.valid(d, z3.BoolVal(False))[1]); continue
             out = [b for e in d.events if e[0] == 'out' for b in e[2]]
+            if any(not z3.is_expr(b) for b in out):
+                fam.obligations += 1; fam.witnesses += 1; cand('opaque-output', 'the field is not built from the string\'s characters and the escape table alone', ex.valid(d, z3.BoolVal(False))[1]); continue
             ref = Ref(ex, d.pc)
             for p, content in rfc4180_field(ref, PC(d.pc), out):
                 fam.obligations += 1; fam.witnesses += 1; fam.paths += 1
@@ -241,3 +243,13 @@ def csv_quoting(ctx):
         rows = list(csv.reader(io.StringIO(txt, newline=''), skipinitialspace=True))
         c.replay = {'argv': ['-o', 'csv', '--select', '.=v'], 'stdin': json.dumps(s), 'csv_reader_rows': rows, 'raw': txt}
         c.status = 'reproduced' if len(rows) < 2 or rows[1] != [s] else 'not-reproduced'
+        if c.status != 'reproduced':
+            # text mode with several single-character escape sequences: each character is replaced at most once
+            for table, value in (({';': '\\;', '\\': '\\\\'}, 'a;b\\c'), ({'a': 'b', 'b': 'a'}, 'abba'), ({'"': '""', ',': '\\,'}, 'x",y')):
+                argv = ['-o', 'text', '--select', '.=v']
+                for k_, v_ in table.items(): argv += ['--escape-sequance', k_ + v_]
+                r2 = run_jawk(ctx, argv, json.dumps(value).encode())
+                exp = ''.join(table.get(ch, ch) for ch in value) + '\n'
+                if show(r2['stdout']) != exp:
+                    c.replay = {'argv': argv, 'stdin': json.dumps(value), 'expected': exp, 'actual': show(r2['stdout'])}; c.status = 'reproduced'; break
+            if c.status != 'reproduced' and c.role == 'opaque-output': c.status = 'unit'
